@@ -373,7 +373,7 @@ def split_steps(text):
     for l in text.split("\n"):
         if l == 's':
             steps.append((cur, inuse)); cur = []; inuse = None
-        elif l.startswith('S '):
+        elif re.match(r"S [^ :\r\0][^ \r\0]* :", l):        # a well-formed statistics line; anything else that starts with 'S ' is kept as output
             m = re.match(r"S iauth :\d+-\d+ reqs alloc, (\d+) in use", l)
             if m: inuse = int(m.group(1))
         else:
